@@ -282,6 +282,16 @@ def stripSpaces (s : String) : String :=
   let isWs := fun (ch : Char) => ch == ' ' || ch == '\t' || ch == '\n' || ch == '\r'
   String.ofList ((s.toList.dropWhile isWs).reverse.dropWhile isWs).reverse
 
+/-- `RequestContext.from_environ`: `[r.strip() for r in v.split(',')] if v else []`. -/
+def parseRoles (v : String) : List String :=
+  if v == "" then [] else (v.splitOn ",").map stripSpaces
+
+/-- The context built from the client's own headers when `NoAuthMiddleware` passes a request through
+untouched (exempt path): no user, no project; roles and scope as sent. -/
+def rawCreds (h : AuthHeaders) : Creds :=
+  { userId := none, projectId := none, roles := parseRoles (h.xRoles.getD ""),
+    systemScope := h.systemScope, domainId := h.domainId }
+
 /-- `NoAuthMiddleware.__call__` for a path that is not exempt, followed by
 `RequestContext.from_environ`.  `none` = 401 (no `X-Auth-Token`). -/
 def noauthCreds (h : AuthHeaders) : Option Creds :=
@@ -290,16 +300,14 @@ def noauthCreds (h : AuthHeaders) : Option Creds :=
   | some tok =>
     let (user, proj) := partitionColon tok
     let proj := if proj == "" then user else proj
-    -- the middleware stores `','.join(roles)`; oslo.context reads it back:
-    -- `[r.strip() for r in v.split(',')] if v else []`
+    -- the middleware stores `','.join(roles)`; oslo.context reads it back
     let joined : String :=
       match h.xRoles with
       | some r => r
       | none => if user == "admin" then "admin" else ""
-    let roles : List String := if joined == "" then [] else (joined.splitOn ",").map stripSpaces
     some { userId := some user
            projectId := if truthy h.systemScope then none else some proj
-           roles := roles
+           roles := parseRoles joined
            systemScope := h.systemScope
            domainId := h.domainId }
 
@@ -351,7 +359,7 @@ def Pipeline.respond (p : Pipeline) (file : Rules) (r : Route) (pathInfo : Name)
   if p.noauthExempt.contains pathInfo then
     -- passed through untouched: no user in the environment
     if p.contextExempt.contains pathInfo then
-      if p.authorisedOp file r {} query then .pass else .forbidden
+      if p.authorisedOp file r (rawCreds h) query then .pass else .forbidden
     else .unauthenticated
   else
     match noauthCreds h with
